@@ -564,6 +564,7 @@ hwloc__xml_import_userdata(hwloc_topology_t topology,
   size_t length = 0;
   int encoded = 0;
   char *name = NULL; /* optional */
+  int got_content = 0;
   int ret;
 
   while (1) {
@@ -586,6 +587,7 @@ hwloc__xml_import_userdata(hwloc_topology_t topology,
     ret = state->global->get_content(state, &buffer, reallength);
     if (ret < 0)
       return -1;
+    got_content = 1;
 
   } else if (topology->userdata_not_decoded) {
       const char *buffer;
@@ -594,6 +596,7 @@ hwloc__xml_import_userdata(hwloc_topology_t topology,
       ret = state->global->get_content(state, &buffer, reallength);
       if (ret < 0)
         return -1;
+      got_content = 1;
       fakename = malloc(6 + 1 + (name ? strlen(name) : 4) + 1);
       if (!fakename)
 	return -1;
@@ -607,6 +610,7 @@ hwloc__xml_import_userdata(hwloc_topology_t topology,
       ret = state->global->get_content(state, &encoded_buffer, encoded_length);
       if (ret < 0)
         return -1;
+      got_content = 1;
       if (ret) {
 	char *decoded_buffer = malloc(length+1);
 	if (!decoded_buffer)
@@ -627,11 +631,14 @@ hwloc__xml_import_userdata(hwloc_topology_t topology,
 	ret = state->global->get_content(state, &buffer, length);
 	if (ret < 0)
 	  return -1;
+	got_content = 1;
       }
       topology->userdata_import_cb(topology, obj, name, buffer, length);
   }
 
-  state->global->close_content(state);
+  /* only put back what get_content() changed */
+  if (got_content)
+    state->global->close_content(state);
   return state->global->close_tag(state);
 }
 
